@@ -178,7 +178,7 @@ func (s *script) send(i int) bool {
 	cx.cur, cx.correct = 0, nil
 	live := s.live()
 	body := rig.ReqBody(i, k)
-	call := mon.Go("Send", func() (interface{}, error) { return nil, rig.Ctxs[i].Send(body) })
+	call := mon.Go("Send", func() (interface{}, error) { return nil, rig.Ctxs[i].Send(rig.ReqBody(i, k)) })
 	if !c.AwaitOrViolate("surveyor/send-stuck", fmt.Sprintf("ctx %d Send", i), call.Done, mon.AwaitOpts{}) {
 		return false
 	}
